@@ -58,3 +58,224 @@ Proof.
   - eapply omap_all_forall; eauto. intros x y. apply scalar_of_kind.
   - now apply adefault_kind.
 Qed.
+
+(* ------------------------------------------------------------------ the denotation of an entry *)
+Lemma gather_step_length sc fs acc r :
+  length (fst acc) = length fs -> length (fst (gather_step sc fs acc r)) = length fs.
+Proof.
+  destruct acc as [st u]. destruct r as [num p]. unfold gather_step. cbn [fst]. intros L.
+  destruct (find_field fs num) as [[i f]|]; [|exact L].
+  destruct (accepts sc f p); [|exact L]. cbn [fst]. now apply add_payload_length.
+Qed.
+
+Lemma gather_length sc fs rs : forall acc,
+  length (fst acc) = length fs -> length (fst (fold_left (gather_step sc fs) rs acc)) = length fs.
+Proof.
+  induction rs as [|r rs IH]; intros acc L; [exact L|]. cbn [fold_left]. apply IH. now apply gather_step_length.
+Qed.
+
+Lemma sem_entry n sc ce rs e fk fv :
+  cfields (get_class sc ce) = [fk; fv] -> sem n sc ce rs = Some e ->
+  exists n' ka va u ps0 ps1,
+    n = S n' /\ e = AMsg [ka; va] u /\
+    interp_field (nested_sem n' sc) sc fk ps0 = Some ka /\
+    interp_field (nested_sem n' sc) sc fv ps1 = Some va.
+Proof.
+  intros Hfs H. destruct n as [|n']; [discriminate|]. cbn [sem] in H. fold (nested_sem n' sc) in H.
+  rewrite Hfs in H.
+  destruct (forallb _ rs); [|discriminate].
+  pose proof (gather_length sc [fk; fv] rs (map (fun _ => []) [fk; fv], []) eq_refl) as L.
+  unfold gather in H. destruct (fold_left _ rs _) as [st unk]. cbn [fst] in L.
+  destruct st as [|ps0 [|ps1 [|? ?]]]; try discriminate L.
+  cbn [combine omap_all] in H. unfold obind in H.
+  destruct (interp_field (nested_sem n' sc) sc fk ps0) as [ka|] eqn:E0; [|discriminate].
+  destruct (interp_field (nested_sem n' sc) sc fv ps1) as [va|] eqn:E1; [|discriminate].
+  injection H as <-. exists n', ka, va, unk, ps0, ps1. tauto.
+Qed.
+
+(* what wf_schema says about the Entry class of a map field *)
+Lemma entry_fields sc ng f :
+  wf_field sc ng f = true -> card_of f = MapOf ->
+  exists fk fv kt vt pk pv',
+    cfields (get_class sc (fentry f)) = [fk; fv] /\ fmap f = Some (kt, vt) /\
+    fty fk = kt /\ fty fv = vt /\ fgroup fk = None /\ fgroup fv = None /\ fwraps fv = None /\
+    fhint fk = HPlain pk /\ fhint fv = HPlain pv' /\
+    map_key_ok kt = true /\ vt <> TMap /\
+    pyty_fits (length (classes sc)) (length (enums sc)) kt pk = true /\
+    pyty_fits (length (classes sc)) (length (enums sc)) vt pv' = true.
+Proof.
+  intros W C. destruct (wf_mapof sc ng f W C) as (k & v & kt & vt & Hh & _ & _ & Hm & EC).
+  unfold wf_field in W. rewrite Hh, Hm in W. bsplit.
+  unfold entry_class_ok in EC. rewrite Hm, Hh in EC.
+  destruct (cfields (get_class sc (fentry f))) as [|fk [|fv [|? ?]]]; try discriminate EC.
+  destruct (fhint fk) as [pk| | |] eqn:Hk; bsplit; try discriminate.
+  destruct (fhint fv) as [pv'| | |] eqn:Hv; bsplit; try discriminate.
+  exists fk, fv, kt, vt, pk, pv'.
+  repeat match goal with H : ptype_eqb _ _ = true |- _ => apply ptype_eqb_eq in H end.
+  repeat match goal with H : is_some' _ = false |- _ => apply is_some'_false in H end.
+  repeat split; try assumption; try reflexivity.
+  intros ->. match goal with H : ptype_eqb TMap TMap = false |- _ => discriminate H end.
+Qed.
+
+Lemma map_key_kind kt : map_key_ok kt = true ->
+  kt <> TMessage /\ kt <> TMap /\ (tkind kt = 1 \/ tkind kt = 2 \/ tkind kt = 4)%nat.
+Proof. destruct kt; intros H; try discriminate H; repeat split; try discriminate; cbn; auto. Qed.
+
+(* ------------------------------------------------------------------ keys *)
+Lemma key_eq_agree sc k' k :
+  scalarish k' -> scalarish k -> akind (abs_scalar k') = akind (abs_scalar k) ->
+  (akind (abs_scalar k) = 1 \/ akind (abs_scalar k) = 2 \/ akind (abs_scalar k) = 4)%nat ->
+  pv_eq sc k' k = key_eqb (abs_scalar k') (abs_scalar k).
+Proof.
+  destruct k', k; cbn; try tauto; try discriminate; try reflexivity; intros _ _ _ [H|[H|H]]; discriminate.
+Qed.
+
+Definition dict_go (sc : schema) (k v : pv) :=
+  fix go (d : list (pv * pv)) : list (pv * pv) :=
+    match d with
+    | [] => [(k, v)]
+    | (k', v') :: r => if pv_eq sc k' k then (k', v) :: r else (k', v') :: go r
+    end.
+
+Lemma dict_set_map_put sc f d k v :
+  (forall kv, In kv d -> pv_eq sc (fst kv) k = key_eqb (abs_scalar (fst kv)) (abs_scalar k)) ->
+  map (abs_kv sc f) (dict_set d sc k v) =
+  map_put (abs_scalar k) (abs_elem sc (value_field sc f) v) key_eqb (map (abs_kv sc f) d).
+Proof.
+  change (dict_set d sc k v) with (dict_go sc k v d).
+  induction d as [|[k' v'] d IH]; intros H; [reflexivity|].
+  pose proof (H (k', v') (or_introl eq_refl)) as Hk. cbn [fst] in Hk.
+  cbn [dict_go map map_put]. change (abs_kv sc f (k', v')) with (abs_scalar k', abs_elem sc (value_field sc f) v'). cbv iota beta.
+  rewrite <- Hk. destruct (pv_eq sc k' k); [reflexivity|]. cbn [map].
+  change (abs_kv sc f (k', v')) with (abs_scalar k', abs_elem sc (value_field sc f) v'). f_equal.
+  apply IH. intros kv Hin. apply H. now right.
+Qed.
+
+Lemma map_put_forall (P : aval * aval -> Prop) k v eqb acc :
+  Forall P acc -> (forall k' v', P (k', v') -> P (k', v)) -> P (k, v) -> Forall P (map_put k v eqb acc).
+Proof.
+  intros HF Hrepl Hnew. induction HF as [|[k' v'] acc Hx Hacc IH]; cbn [map_put]; [constructor; [exact Hnew | constructor]|].
+  destruct (eqb k' k); constructor; auto. eapply Hrepl; eauto.
+Qed.
+
+Lemma interp_map_keys n' sc f ps acc ng :
+  wf_field sc ng f = true -> card_of f = MapOf ->
+  interp_field (nested_sem n' sc) sc f ps = Some (AMap acc) ->
+  forall kt vt, fmap f = Some (kt, vt) -> Forall (fun kv => akind (fst kv) = tkind kt) acc.
+Proof.
+  intros W C H kt vt Hm.
+  destruct (entry_fields sc ng f W C) as (fk & fv & kt' & vt' & pk & pv' & Hfs & Hm' & Fk & Fv & Gk & Gv & _ & Hk & Hv & MK & _).
+  rewrite Hm in Hm'. injection Hm' as <- <-.
+  destruct (map_key_kind kt MK) as (N1 & N2 & _).
+  assert (Ck : card_of fk = Implicit).
+  { unfold card_of. rewrite Hk, Gk, Fk. destruct kt; try reflexivity; congruence. }
+  unfold interp_field in H. rewrite C in H. apply obind_some in H as (es & Hes & E). injection E as <-.
+  assert (He : Forall (fun e => exists ka va u, e = AMsg [ka; va] u /\ akind ka = tkind kt) es).
+  { eapply omap_all_forall; [exact Hes|]. intros p e Hn. unfold nested_sem in Hn.
+    destruct (parse_wire (len_bytes p)) as [rs'|]; [|discriminate]. cbn [obind] in Hn.
+    destruct (sem_entry _ _ _ _ _ _ _ Hfs Hn) as (n'' & ka & va & u & ps0 & ps1 & -> & -> & I0 & _).
+    exists ka, va, u. split; [reflexivity|]. rewrite <- Fk.
+    eapply interp_implicit_kind; eauto; rewrite Fk; assumption. }
+  set (step := fun (acc0 : list (aval * aval)) (e : aval) => _).
+  assert (G : forall acc0, Forall (fun kv => akind (fst kv) = tkind kt) acc0 ->
+                           Forall (fun kv => akind (fst kv) = tkind kt) (fold_left step es acc0)).
+  { clear Hes. induction He as [|e es (ka & va & u & -> & Kk) _ IH]; intros acc0 H0; [exact H0|].
+    cbn [fold_left]. apply IH. unfold step. apply map_put_forall; [exact H0 | intros k' v' Hp; exact Hp | exact Kk]. }
+  apply G. constructor.
+Qed.
+
+(* ------------------------------------------------------------------ a fresh object denotes the empty message *)
+Lemma omap_interp_empty nested sc fs :
+  omap_all (fun '(f, ps) => interp_field nested sc f ps) (combine fs (map (fun _ => []) fs)) = Some (map empty_field fs).
+Proof.
+  induction fs as [|f fs IH]; [reflexivity|].
+  cbn [map combine omap_all]. unfold obind. rewrite interp_empty, IH. reflexivity.
+Qed.
+
+Lemma abs_new sc c : wf_schema sc = true -> abs_obj sc (new sc c) = empty_msg sc c.
+Proof.
+  intros WF. pose proof (Inv_new sc (fun _ _ => None) c WF) as I0. cbn zeta in I0.
+  destruct (new sc c) as [c0 raw0 sow0 unk0 cur0] eqn:En. cbn [ocls oraw ounk ocur] in I0.
+  assert (c0 = c) by (unfold new in En; congruence). subst c0.
+  rewrite (abs_obj_sow sc c raw0 sow0 true unk0 cur0).
+  destruct (Inv_final _ _ _ _ _ _ I0) as (F1 & F2). rewrite F2. unfold empty_msg. f_equal.
+  cbn [ocur oraw] in F1.
+  rewrite omap_interp_empty in F1. injection F1 as F1'. cbn [ocur oraw]. symmetry. exact F1'.
+Qed.
+
+Lemma builtins_std_spec sc : builtins_std sc = true ->
+  empty_msg sc timestamp_cls = AMsg [AInt 0; AInt 0] [] /\ empty_msg sc duration_cls = AMsg [AInt 0; AInt 0] [].
+Proof.
+  unfold builtins_std, empty_msg.
+  destruct (map empty_field (cfields (get_class sc timestamp_cls))) as [|[z| | | | | | |?|?|? ?] [|[z'| | | | | | |?|?|? ?] [|? ?]]]; try discriminate.
+  destruct z; try discriminate. destruct z'; try discriminate.
+  destruct (map empty_field (cfields (get_class sc duration_cls))) as [|[y| | | | | | |?|?|? ?] [|[y'| | | | | | |?|?|? ?] [|? ?]]]; try discriminate.
+  destruct y; try discriminate. destruct y'; try discriminate.
+  intros _. split; reflexivity.
+Qed.
+
+Section MapStep.
+  Variable sc : schema.
+  Hypothesis WF : wf_schema sc = true.
+  Hypothesis BS : builtins_std sc = true.
+  Variable n' : nat.
+
+  (* the value of an entry, read back with getattr, against the specification's [strip] *)
+  Lemma entry_value ce e fk fv pv' ka va u ps1 :
+    good sc ce e -> cfields (get_class sc ce) = [fk; fv] ->
+    fgroup fv = None -> fwraps fv = None -> fhint fv = HPlain pv' -> fty fv <> TMap ->
+    pyty_fits (length (classes sc)) (length (enums sc)) (fty fv) pv' = true ->
+    abs_obj sc e = AMsg [ka; va] u ->
+    interp_field (nested_sem n' sc) sc fv ps1 = Some va ->
+    exists v, snd (getattr sc e 1) = Ok v /\
+              abs_elem sc fv v = strip (match msg_class fv with Some c' => empty_msg sc c' | None => ANone end) va.
+  Proof.
+    intros G Hfs Gv Wv Hv NotMap Fit Ha Hi.
+    destruct (ptype_eqb (fty fv) TMessage) eqn:IsMsg.
+    - (* message-valued map *)
+      apply ptype_eqb_eq in IsMsg.
+      destruct G as (Ec & Lr & Sh). destruct e as [c0 raw sow unk0 cur]. cbn [ocls oraw] in *. subst c0.
+      rewrite abs_obj_eq, Hfs in Ha. rewrite Hfs in Lr.
+      destruct raw as [|x0 [|x1 [|? ?]]]; try discriminate Lr. cbn [imap2] in Ha. injection Ha as _ Eva _.
+      assert (Hf1 : nth_error (cfields (get_class sc ce)) 1 = Some fv) by (now rewrite Hfs).
+      pose proof (Sh 1%nat fv x1 Hf1 eq_refl) as Sh1.
+      assert (Cv : card_of fv = Explicit) by (unfold card_of; now rewrite Hv, Gv, IsMsg).
+      unfold shape_ok in Sh1. rewrite Cv in Sh1. destruct Sh1 as (_ & Hsow & Hnone).
+      assert (GS : group_selects cur fv 1 <> Some false) by (unfold group_selects; rewrite Gv; discriminate).
+      rewrite (getattr_spec sc ce [x0; x1] sow unk0 cur 1 fv x1 Hf1 eq_refl GS).
+      unfold abs_field in Eva. rewrite Cv in Eva. subst va.
+      destruct (builtins_std_spec sc BS) as (Ets & Edur).
+      assert (MC : exists c', msg_class fv = Some c' /\ abs_elem sc fv (default_of sc fv) = empty_msg sc c').
+      { unfold default_of, abs_elem, msg_class. rewrite IsMsg, Hv, Wv. cbn [elem_hint].
+        rewrite IsMsg in Fit. destruct pv'; cbn in Fit; try discriminate Fit.
+        - eexists. split; [reflexivity|]. now apply abs_new.
+        - exists timestamp_cls. split; [reflexivity|]. rewrite Ets. reflexivity.
+        - exists duration_cls. split; [reflexivity|]. rewrite Edur. reflexivity. }
+      destruct MC as (c' & MC & Dflt). rewrite MC.
+      destruct x1; cbn [snd strip].
+      + eexists. split; [reflexivity | exact Dflt].
+      + specialize (Hnone eq_refl). rewrite Hv in Hnone. contradiction.
+      + eexists. split; reflexivity.
+      + eexists. split; reflexivity.
+      + eexists. split; reflexivity.
+      + eexists. split; reflexivity.
+      + eexists. split; reflexivity.
+      + eexists. split; reflexivity.
+      + eexists. split; reflexivity.
+      + eexists. split; reflexivity.
+      + eexists. split; reflexivity.
+      + rewrite Hv, (Hsow _ eq_refl). cbn [strip]. eexists. split; [reflexivity|].
+        unfold abs_elem. now rewrite MC.
+    - (* scalar-valued map *)
+      assert (NotMsg : fty fv <> TMessage) by (intros E; rewrite E in IsMsg; discriminate).
+      assert (Cv : card_of fv = Implicit).
+      { unfold card_of. rewrite Hv, Gv. destruct (fty fv); try reflexivity; congruence. }
+      assert (MC : msg_class fv = None) by (unfold msg_class; destruct (fty fv); try reflexivity; congruence).
+      pose proof (interp_implicit_kind _ _ _ _ _ Cv NotMsg NotMap Hi) as Kv.
+      assert (Pv : plain_aval va).
+      { apply plain_kind. rewrite Kv. destruct (fty fv); cbn; try discriminate; congruence. }
+      destruct (implicit_read sc ce e [ka; va] u 1 va WF G Ha eq_refl Pv) as (v & Hg & Av & Sv).
+      exists v. split; [exact Hg|]. rewrite MC. unfold abs_elem. rewrite MC, Av.
+      destruct va; try contradiction; reflexivity.
+  Qed.
+End MapStep.
